@@ -739,7 +739,25 @@ def scenarios_process(seed, n, generic_share=0.4):
         decls = hg.gen_hierarchy(hg.r.randint(1, 4), generic=generic)
         out.append({'id': f'p{seed}:{i}', 'decl': hg.decl, 'op': 'process', 'decls': decls, 'stream': 'generic' if generic else 'plain',
                     'spell': hg.r.randrange(2)})
+        if generic_share > 0 and i % 12 == 5:
+            # the same generic class subscripted twice with unions that differ only in member order (equal for `typing`):
+            # each subclass gets the order IT was written with
+            r = hg.r
+            m = r.sample(['int', 'float', 'str', 'bool', 'NoneType'], r.randint(2, 3))
+            m2 = list(m)
+            while m2 == m:
+                r.shuffle(m2)
+            wrapu = lambda u: u    # directly: inside another generic alias typing's OWN cache already merges the two spellings
+            gname = hg.fresh('GT')
+            tw = [{'name': gname, 'fields': [{'name': 'x', 'ty': tv('T')}], 'opts': {}, 'hook': None, 'tvars': ['T']},
+                  {'name': hg.fresh('GA'), 'fields': [], 'opts': {}, 'hook': None, 'base': {'cls': [gname, [wrapu({'union': m})]]}},
+                  {'name': hg.fresh('GB'), 'fields': [], 'opts': {}, 'hook': None, 'base': {'cls': [gname, [wrapu({'union': m2})]]}}]
+            out.append({'id': f'p{seed}:{i}t', 'decl': hg.decl, 'op': 'process', 'decls': tw, 'stream': 'generic-twin', 'spell': 0})
     return out
+
+
+class _ObjWire(dict):
+    """an already encoded value (a dataclass instance in wire form): ENC.enc passes it through"""
 
 
 def scenarios_construct(seed, n):
@@ -771,6 +789,20 @@ def scenarios_construct(seed, n):
             if r.random() < 0.15:
                 f['spec'] = {'aliases': [fn + '_alias']}
             d['fields'].append(f)
+        inner_cls = None
+        if r.random() < 0.3:
+            # a field whose type is another dataclass: the constructor converts an instance passed for it like any other argument
+            # (serialise by its own type, parse as the field's type), also an instance that was built unchecked
+            inner_cls = hg.fresh('KI')
+            di = {'name': inner_cls, 'fields': [{'name': 'x', 'ty': 'int'}, {'name': 'w', 'ty': 'str', 'default': {'value': 'w'}}],
+                  'opts': {'frozen': r.random() < 0.5}, 'hook': None}
+            hg.class_info[inner_cls] = di
+            f = {'name': 'inner', 'ty': {'cls': [inner_cls, []]}}
+            if seen_default or kw:
+                f['default'] = {'value': None}
+                f['ty'] = {'union': [{'cls': [inner_cls, []]}, 'NoneType']}
+            d['fields'].append(f)
+            fnames = fnames + ['inner']
         noinit = None
         if len(fnames) >= 2 and r.random() < 0.25:
             # a field that is not a constructor parameter (init=False), preferably NOT the last one: it keeps its slot in the
@@ -794,7 +826,12 @@ def scenarios_construct(seed, n):
             if p < 0.15:
                 v = hg.mutate(v)
             vals[f['name']] = v
-        sc = {'id': f'k{seed}:{i}', 'decl': {'enums': [], 'subs': [], 'classes': [d]}, 'cls': name, 'stream': path, 'spell': 0}
+        if inner_cls and 'inner' in vals and path in ('construct', 'unchecked'):
+            xv = r.choice([5, 5, 'bad', 2.5, True])
+            vals['inner'] = r.choice([{'x': xv}, _ObjWire({'obj': [inner_cls, [['x', ENC.enc(xv)], ['w', 'q']], ['x', 'w']]}),
+                                      _ObjWire({'obj': [inner_cls, [['x', ENC.enc(xv)], ['w', 'w']], ['x']]})])
+        sc = {'id': f'k{seed}:{i}', 'decl': {'enums': [], 'subs': [], 'classes': ([hg.class_info[inner_cls]] if inner_cls else []) + [d]},
+              'cls': name, 'stream': path, 'spell': 0}
         if path in ('construct', 'unchecked'):
             # positional for a prefix of the positional fields, keywords for the rest
             pos = []
@@ -961,10 +998,22 @@ def scenarios_tagged(seed, n):
                 v = r.choice([{}, {tagv: body, 'other': 1}])
         else:
             v = {'t': tagv, 'c': body}
-            if mode > 0.85:
-                v = r.choice([{'t': tagv}, {'t': tagv, 'c': body, 'x': 1}, {'t': tagv, 'd': body}, {}])
+            if mode > 0.75:
+                # a key missing, a key too many (beside an otherwise valid pair), the content under another key, nothing
+                v = r.choice([{'t': tagv}, {'t': tagv, 'c': body, 'x': 1}, {'t': tagv, 'c': body, 'note': 'n'}, {'t': tagv, 'd': body}, {}])
         if r.random() < 0.06:
             v = r.choice([None, 3, 'abc', [1, 2], [body]])
+        # the tagged union as a member of an untagged union / Optional, or as a container element: it must still dispatch
+        # on its tag and keep its layout
+        wrap = r.random()
+        if wrap < 0.12:
+            ty = {'union': [ty, 'NoneType']}
+        elif wrap < 0.20:
+            ty = {'union': [r.choice(['int', 'str']), ty]}
+        elif wrap < 0.26:
+            ty, v = {'seq': ['list', ty]}, [v]
+        elif wrap < 0.30:
+            ty, v = {'map': ['dict', ['str', ty]]}, {'k': v}
         try:
             wire = ENC.enc(v)
             json.dumps(wire)
@@ -1381,7 +1430,7 @@ def scenarios_history(seed, n, threads=0):
     """C10: random histories of alloc / drop / gc / churn / call over a few slots and a pool of short-lived type expressions"""
     g = random.Random(seed)
     out = []
-    NT = 15
+    NT = 18
     for i in range(n):
         r = random.Random(g.randrange(1 << 62))
         hist = []
@@ -1403,7 +1452,7 @@ def scenarios_history(seed, n, threads=0):
             elif p < 0.70:
                 hist.append(['mutreg', r.choice([3, 5, 7, 11])])
             else:
-                hist.append(['call', r.choice(sorted(live)), r.choice([0, 0, 0, 1, 1, 2, 3, 3])])
+                hist.append(['call', r.choice(sorted(live)), r.choice([0, 0, 0, 1, 1, 2, 3, 3]), r.randrange(3)])
         # the classic: build, use, drop, (collect), re-create ANOTHER type of the same size, use
         if r.random() < 0.4:
             a, b = r.sample(range(NT), 2)
@@ -1497,4 +1546,198 @@ def scenarios_io(seed, n):
             continue
         out.append({'id': f'io{seed}:{i}', 'decl': ge.decl, 'op': 'io', 'ty': ty, 'val': wire, 'fmt': fmt, 'sink': sink, 'opts': opts,
                     'ndocs': r.randint(1, 4), 'enc': r.choice(['utf-8', 'latin-1', 'ascii', 'cp1252', 'utf-16']), 'is_path': sink in ('strpath', 'path', 'method_file', 'yaml_all_path'), 'spell': r.randrange(2), 'stream': 'io-' + fmt})
+    return out
+
+
+def scenarios_unsupported(seed, n):
+    """C04 (last clause) / C01: a type that cannot be converted, at every position of an otherwise fine type: the failure
+    comes when the converter is BUILT (TypeError / UnsupportedAnnotation), whatever the data is"""
+    g = random.Random(seed)
+    out = []
+    for i in range(n):
+        ge = Gen(g.randrange(1 << 62), max_depth=1, classes=True)
+        r = ge.r
+        bad = {'unsupported': r.choice(['Callable', 'object', 'type'])}
+        pos = r.choice(['top', 'elem', 'dictval', 'slot', 'union', 'optional', 'field_first', 'field_last', 'nested_field', 'field_in_list'])
+
+        def cls_with(bad_ty, where):
+            name = ge.fresh('U')
+            fields = [{'name': 'a', 'ty': 'int'}, {'name': 'b', 'ty': 'str', 'default': {'value': 's'}}]
+            badf = {'name': 'cb', 'ty': bad_ty}
+            if where == 'first':
+                fields = [badf] + fields
+            else:
+                fields = fields[:1] + [dict(badf, default={'value': None})] + fields[1:]
+            d = {'name': name, 'fields': fields, 'opts': {'in_format': r.choice([['struct'], ['tuple', 'struct']])}, 'hook': None}
+            ge.decl['classes'].append(d)
+            ge.class_info[name] = d
+            return {'cls': [name, []]}
+
+        if pos == 'top':
+            ty = bad
+        elif pos == 'elem':
+            ty = {'seq': [r.choice(['list', 'tuple', 'set']), bad]}
+        elif pos == 'dictval':
+            ty = {'map': ['dict', ['str', bad]]}
+        elif pos == 'slot':
+            ty = {'tuple': ['int', bad]}
+        elif pos == 'union':
+            ty = {'union': ['int', bad]}
+        elif pos == 'optional':
+            ty = {'union': [bad, 'NoneType']}
+        elif pos == 'field_first':
+            ty = cls_with(bad, 'first')
+        elif pos == 'field_last':
+            ty = cls_with(bad, 'last')
+        elif pos == 'nested_field':
+            inner = cls_with(bad, 'last')
+            outer = ge.fresh('U')
+            d = {'name': outer, 'fields': [{'name': 'n', 'ty': 'int', 'default': {'value': {'i': '1'}}}, {'name': 'inner', 'ty': inner, 'default': {'value': None}}],
+                 'opts': {}, 'hook': None}
+            ge.decl['classes'].append(d)
+            ge.class_info[outer] = d
+            ty = {'cls': [outer, []]}
+        else:
+            ty = {'union': [{'seq': ['list', cls_with(bad, 'last')]}, 'NoneType']}
+        val = r.choice([None, [], {}, 1, 'x', {'a': 1}, [1], {'a': 1, 'b': 'q'}, {'n': 2}, [[]], [{'a': 1}]])
+        op = r.choice(['build', 'from_data', 'from_data'])
+        out.append({'id': f'un{seed}:{i}', 'decl': ge.decl, 'op': op, 'ty': ty, 'val': ENC.enc(val), 'spell': r.randrange(2), 'stream': 'unsupported'})
+    return out
+
+
+def scenarios_touch(seed, n, op='from_data'):
+    """C09: a dataclass whose validation hook normalises a container-valued field IN PLACE.  The field holds a container the
+    conversion built, so the caller's data stays as it was (also when a later check makes the conversion fail)."""
+    g = random.Random(seed)
+    out = []
+    for i in range(n):
+        ge = Gen(g.randrange(1 << 62), max_depth=1, classes=True)
+        r = ge.r
+        fty = r.choice([{'map': ['dict', None]}, {'map': ['dict', ['any', 'any']]}, {'map': ['dict', ['str', 'int']]}, {'map': ['Mapping', ['str', 'any']]},
+                        {'map': ['dict', ['str', 'any']]}, {'seq': ['list', None]}, {'seq': ['list', 'int']}, {'seq': ['list', 'any']},
+                        {'seq': ['Sequence', 'any']}])
+        name = ge.fresh('W')
+        fields = [{'name': 'opts', 'ty': fty}, {'name': 'n', 'ty': 'int', 'default': {'value': {'i': '1'}}}]
+        if r.random() < 0.5:
+            fields.reverse()
+            fields[0].pop('default', None)
+            fields[1]['default'] = {'factory': 'dict' if 'map' in fty else 'list'}
+        d = {'name': name, 'fields': fields, 'opts': {'in_format': r.choice([['struct'], ['tuple', 'struct']])}, 'hook': 'touch:opts'}
+        ge.decl['classes'].append(d)
+        ge.class_info[name] = d
+        if 'map' in fty:
+            data = {r.choice(['a', 'b', 'k']): r.choice([1, 2, 3]) for _ in range(r.randint(0, 3))}
+        else:
+            data = [r.choice([1, 2, 3]) for _ in range(r.randint(0, 3))]
+        v = {'opts': data, 'n': r.choice([1, 2, 'bad'])} if r.random() < 0.8 else {'opts': data}
+        ty = {'cls': [name, []]}
+        if r.random() < 0.3:
+            ty, v = {'seq': ['list', ty]}, [v, v] if r.random() < 0.5 else [v]
+        elif r.random() < 0.2:
+            ty = {'union': [ty, 'NoneType']}
+        try:
+            wire = ENC.enc(v)
+            json.dumps(wire)
+        except Exception:
+            continue
+        out.append({'id': f'to{seed}:{i}', 'decl': ge.decl, 'op': op, 'ty': ty, 'val': wire, 'spell': r.randrange(2), 'stream': 'touch'})
+    return out
+
+
+def scenarios_cond_twins(seed, n):
+    """C13: pairs of condition expressions over the SAME operands and the same inner type that differ only in how they are
+    parenthesised (their printed names may coincide), in one interpreter, with values on which they differ"""
+    g = random.Random(seed)
+    out = []
+    stock = [('Positive', 'positive'), ('Negative', 'negative'), ('NonNegative', 'non-negative'), ('NonPositive', 'non-positive'), ('Finite', 'finite')]
+    for i in range(n // 2):
+        r = random.Random(g.randrange(1 << 62))
+        def leafc():
+            if r.random() < 0.7:
+                nm, adj = r.choice(stock)
+                return {'stock': nm, 'name': adj}
+            uid = r.choice(['gt', 'even'])
+            arg = r.randint(-1, 3)
+            return {'user': [uid, arg], 'name': f'{uid}{arg}'}
+        a, b, c = leafc(), leafc(), leafc()
+        shape = r.randrange(3)
+        if shape == 0:
+            e1, e2 = {'all': [{'any': [a, b]}, c]}, {'any': [a, {'all': [b, c]}]}
+        elif shape == 1:
+            e1, e2 = {'not': {'all': [a, b]}}, {'all': [{'not': a}, b]}
+        else:
+            e1, e2 = {'any': [{'all': [a, b]}, c]}, {'all': [a, {'any': [b, c]}]}
+        if r.random() < 0.5:
+            e1, e2 = e2, e1
+        inner = r.choice(['float', 'float', 'int'])
+        vals = [float('inf'), float('-inf'), -2.5, 2.5, 0.0, 1, -1, 2, 4, 0, 3, float('nan')]
+        for k, e in enumerate((e1, e2)):
+            ty = {'ann': [inner, [{'cond': e, 'fmt': 'satisfying'}]]}
+            v = r.choice(vals)
+            if r.random() < 0.3:
+                ty, v = {'seq': ['list', ty]}, [r.choice(vals) for _ in range(3)]
+            out.append({'id': f'ct{seed}:{i}:{k}', 'decl': {'enums': [], 'subs': [], 'classes': []}, 'op': 'from_data', 'ty': ty, 'val': ENC.enc(v),
+                        'spell': 0, 'stream': 'cond-twins'})
+    return out
+
+
+def scenarios_hashmut(seed, n):
+    """C16: instances holding a non-frozen, hashable dataclass in a field (the outer class frozen or not): equality, order and
+    hash are functions of the current field values"""
+    g = random.Random(seed)
+    out = []
+    for i in range(n):
+        r = random.Random(g.randrange(1 << 62))
+        inner = {'name': 'HI', 'fields': [{'name': 'x', 'ty': 'int', 'default': {'value': {'i': '0'}}}], 'opts': {'frozen': False, 'unsafe_hash': True}, 'hook': None}
+        oopts = {'frozen': r.random() < 0.7, 'order': False}
+        if not oopts['frozen']:
+            oopts['unsafe_hash'] = True
+        outer = {'name': 'HO', 'fields': [{'name': 'inner', 'ty': {'cls': ['HI', []]}}, {'name': 'n', 'ty': 'int', 'default': {'value': {'i': '7'}}}],
+                 'opts': oopts, 'hook': None}
+        decl = {'enums': [], 'subs': [], 'classes': [inner, outer]}
+        def obj(x, nn):
+            return {'obj': ['HO', [['inner', {'obj': ['HI', [['x', {'i': str(x)}]], ['x']]}], ['n', {'i': str(nn)}]], ['inner', 'n']]}
+        pool = [obj(r.choice([1, 2]), r.choice([7, 8])) for _ in range(r.randint(2, 3))]
+        a, b = r.randrange(len(pool)), r.randrange(len(pool))
+        out.append({'id': f'hm{seed}:{i}', 'decl': decl, 'spell': 0, 'stream': 'hashmut', 'tys': [], 'op': 'cmp', 'a': pool[a], 'b': pool[b],
+                    'akey': 'HO', 'bkey': 'HO', 'eq_opt': True, 'order_opt': False, 'pool': [[x, 'HO'] for x in pool]})
+    return out
+
+
+def scenarios_reach(seed, n):
+    """C18: containers whose element types are not declared (bare dict / list / tuple, Dict[Any, Any], List[Any], …) holding
+    scalars for which a call-level handler exists; into direction; observed on the implementation only"""
+    g = random.Random(seed)
+    out = []
+    for i in range(n):
+        r = random.Random(g.randrange(1 << 62))
+        kinds = r.sample(['int', 'str'], r.randint(1, 2))
+        ents = [['int', 'tagint:%d' % r.choice([2, 3, 5])]] if 'int' in kinds else []
+        if 'str' in kinds:
+            ents.append(['str', 'tagstr:%s' % r.choice(['x', 'y'])])
+        h = {'entries': ents, 'exactOnly': r.random() < 0.5}
+        def val(depth):
+            p = r.random()
+            if depth >= 2 or p < 0.4:
+                return r.choice([1, 2, 7, 'a', 'bc', 2.5, None, True])
+            if p < 0.65:
+                return {r.choice([1, 2, 'k', 'm', 3]): val(depth + 1) for _ in range(r.randint(1, 3))}
+            if p < 0.9:
+                return [val(depth + 1) for _ in range(r.randint(0, 3))]
+            return tuple(val(depth + 1) for _ in range(r.randint(1, 2)))
+        v = val(0)
+        if not isinstance(v, (dict, list, tuple)):
+            v = {3: v}
+        ty = None
+        if isinstance(v, dict) and r.random() < 0.4:
+            ty = r.choice([{'map': ['dict', ['any', 'any']]}, {'map': ['dict', None]}, {'map': ['Mapping', ['any', 'any']]}])
+        elif isinstance(v, list) and r.random() < 0.4:
+            ty = r.choice([{'seq': ['list', 'any']}, {'seq': ['list', None]}, {'seq': ['Sequence', 'any']}])
+        try:
+            wire = ENC.enc(v)
+            json.dumps(wire)
+        except Exception:
+            continue
+        out.append({'id': f're{seed}:{i}', 'decl': {'enums': [], 'subs': [], 'classes': []}, 'op': 'reach', 'ty': ty, 'val': wire,
+                    'handlers': {'globals': [h]}, 'spell': 0, 'stream': 'reach'})
     return out
